@@ -379,10 +379,14 @@ pub fn run_c09(case: &Case) -> Outcome {
     // the default brancher
     let cfg = cfg_c09(&mut r);
     cfg.label(&mut out);
+    // half of the cases post every taggable constraint through `with_tag(..)` (its own posting path for
+    // `post`, `implied_by` and `reify`)
+    let tagged = r.gen_bool(0.5);
+    out.cover(if tagged { "posting:tagged" } else { "posting:untagged" });
     pumpkin_solver::verif::enable();
     let res = guard(|| {
         let mut o = Outcome::default();
-        if let Some(got) = iterate_all(&mut o, m, &cfg, false, "iteration") {
+        if let Some(got) = iterate_all(&mut o, m, &cfg, tagged, "iteration") {
             if !o.failed() {
                 compare_sets(&mut o, &expected, &got, "iteration");
             }
